@@ -845,10 +845,16 @@ def mkA (kind : Option SK) (leaf : Option Leaf) (cs : List A) : A :=
       tpat := lowerTuplePattern cs
       mtpat := lowerMatchTuplePattern cs }
 
+mutual
 /-- the attributed tree (structural recursion: this is the whole recursion of `lower.rs`) -/
 def attr : T → A
   | .leaf l => mkA none (some l) []
-  | .node k cs => mkA (some ((SK.ofNat? k).getD .Error)) none (cs.map fun c => attr c)
+  | .node k cs => mkA (some ((SK.ofNat? k).getD .Error)) none (attrL cs)
+/-- `attr` on every child -/
+def attrL : List T → List A
+  | [] => []
+  | c :: cs => attr c :: attrL cs
+end
 
 /-- the state of the `fold` of `lower_program` -/
 structure ProgAcc where
